@@ -606,13 +606,19 @@ def describe(pid):
         return {
             "engine": "tlc+harness",
             "design_ref": "DESIGN.md section 6 (%s), sections 3-5" % pid,
-            "technique": "TLA+ ghost-state invariants (Props.tla) evaluated by TLC over traces recorded from the real "
-                         "state machine driven by scripted doubles (trace validation, Mon.tla)",
+            "technique": "explicit TLA+ design model of the update state machine (Omaha.tla) model-checked by TLC against the "
+                         "property's clauses (Props.tla, invariant Inv_%s; liveness under weak fairness where the property has "
+                         "an 'eventually'), bound to the code in both directions: TLC-enumerated behaviours are replayed through "
+                         "the real StateMachine and the predicted log is compared field by field with the recorded one; traces "
+                         "recorded from the real StateMachine under seeded random scripts are validated against the "
+                         "specification (Mon.tla: clause monitor over every recorded line; TraceOmaha.tla: the recorded run must "
+                         "be a behaviour of the design model)" % pid,
             "level_text": "Model-based: the property is a set of TLA+ clauses over a ghost fold of the observable event "
-                          "alphabet (Props.tla). TLC evaluates them at every line of logs recorded from the real "
-                          "StateMachine driven through all eight embedder traits by scripted doubles under a manual "
-                          "executor (every HTTP/policy/installer/storage/timer operation is a gate the driver opens), "
-                          "over seeded environment scripts covering the property's quantifier (%s)." % SM_PROPS[pid][0],
+                          "alphabet (Props.tla), checked by TLC (1) as invariants of the design model Omaha.tla over its "
+                          "bounded configurations and (2) at every line of logs recorded from the real StateMachine driven "
+                          "through all eight embedder traits by scripted doubles under a manual executor (every "
+                          "HTTP/policy/installer/storage/timer operation is a gate the driver opens), over the model's own "
+                          "behaviours and seeded environment scripts covering the property's quantifier (%s)." % SM_PROPS[pid][0],
             "level_note": "Trusted: TLC, the harness doubles and projection (independent signer / encoder / URL splitter), "
                           "embedder contracts as documented. Bounded/sampled exploration, not a proof.",
         }
